@@ -25,6 +25,19 @@ And(a, b) == a \cap b
 NextFront(rest) == IF rest = {} THEN [y |-> 0, rest |-> {}] ELSE [y |-> Min(rest), rest |-> rest \ {Min(rest)}]
 NextBack(rest)  == IF rest = {} THEN [y |-> 0, rest |-> {}] ELSE [y |-> Max(rest), rest |-> rest \ {Max(rest)}]
 
+\* the provided iterator methods are defined by the two primitive steps: nth(k) discards k elements from the front and
+\* yields the next one (nothing, and an exhausted iterator, when fewer than k + 1 remain); nth_back likewise from the back
+RECURSIVE Nth(_, _)
+Nth(rest, k) == IF k = 0 THEN NextFront(rest) ELSE Nth(NextFront(rest).rest, k - 1)
+RECURSIVE NthBack(_, _)
+NthBack(rest, k) == IF k = 0 THEN NextBack(rest) ELSE NthBack(NextBack(rest).rest, k - 1)
+RECURSIVE Descending(_)
+Descending(S) == IF S = {} THEN <<>> ELSE <<Max(S)>> \o Descending(S \ {Max(S)})
+\* what the consuming adaptors must report for the remaining set: collect, rev().collect, count, last, min, max
+Consumers(rest) == [fwd |-> Ascending(rest), bwd |-> Descending(rest), count |-> Cardinality(rest),
+                    last |-> IF rest = {} THEN 0 ELSE Max(rest), min |-> IF rest = {} THEN 0 ELSE Min(rest),
+                    max |-> IF rest = {} THEN 0 ELSE Max(rest)]
+
 \* Display of a set: "a, b, c"
 RECURSIVE Join(_, _)
 Join(names, sep) == IF names = <<>> THEN <<>>
